@@ -63,10 +63,9 @@ def scenarios(draw):
     for i in range(src.int(0, 3)):
         sc["reads"].append(S.unmapped_read("u%d" % i))
     grouping = src.choice(["none", "tag", "tag", "file"])
-    if grouping != "none":
-        for r in sc["reads"]:
-            if src.bool(0.8):
-                r["tags"] = {"RG": src.choice(["gA", "gB"])}
+    for r in sc["reads"]:
+        if src.bool(0.8):
+            r["tags"] = {"RG": src.choice(["gA", "gB"])}
     sc["grouping"] = grouping
     sc["opts"] = ["--data_type", src.choice(["nanopore", "pacbio_ccs"]), "--threads", "1"]
     if src.bool(0.5):
@@ -170,11 +169,20 @@ def run_enumeration(shard, nshards, seed, n, ctx, tier="quick"):
     modes = ("before", "after")
     base_seed = int(os.environ.get("VERIF_SEED", "1") or 1)
 
+    counter = {"i": 0}
+
     @hypothesis.seed(base_seed * 7919 + 13)
     @settings(max_examples=n_scen, database=None, deadline=None, suppress_health_check=list(HealthCheck),
               phases=[hypothesis.Phase.generate])
     @given(scenarios())
     def body(sc):
+        # the grouping modes (and, for the table mode, a run without --keep_tmp) rotate over the scenarios of a run so
+        # that even the two scenarios of the quick tier cover the read-group table and its lock
+        i = counter["i"]
+        counter["i"] += 1
+        sc["grouping"] = ["file", "tag", "none"][i % 3]
+        if i % 3 == 0:
+            sc["opts"] = [o for o in sc["opts"] if o != "--keep_tmp"]
         enumerate_scenario(sc, ctx, shard, nshards, modes)
     ctx.evaluations = 0
     body()
